@@ -1256,7 +1256,7 @@ impl Prop for C13 {
     }
     const ID: &'static str = "C13";
     fn rule() -> &'static str {
-        "swap / swap_rows / swap_cols / row_pair_mut / fill on {owned TooDee, TooDeeViewMut window (strided, nested), third-party implementor relying on the trait defaults}: exhaustive over shapes (0..=5)^2 x all coordinate / index pairs from {0..dim, dim+1 (rows/cols), usize::MAX} (equal, reversed, one or both out of range) x 6 receiver embeddings, plus random shapes up to 24x24; oracle = model transposition with whole-parent comparison, returned-slice identity for row_pair_mut, panic required for any out-of-range index and r1==r2 for row_pair_mut. Non-trivial = distinct in-range names on an array with >= 2 lines, or an out-of-range / equal-names case. Distinct = distinct case tuple."
+        "swap / swap_rows / swap_cols / row_pair_mut / fill on {owned TooDee, TooDeeViewMut window (strided, nested), third-party implementor relying on the trait defaults}: exhaustive over shapes (0..=5)^2 x all coordinate / index pairs from {0..dim, dim+1 (rows/cols), usize::MAX} (equal, reversed, one or both out of range) x 6 receiver embeddings, plus random shapes up to 24x24; oracle = model transposition with whole-parent comparison, returned-slice identity for row_pair_mut, panic required for any out-of-range index and r1==r2 for row_pair_mut. Non-trivial = distinct in-range names on an array with >= 2 lines, or an out-of-range / equal-names case. Distinct = distinct case tuple. Cross-cutting families (DESIGN 4.0): operations are called through the concrete receiver types (inherent methods, `for v in &mut x`) and through the traits; cell types of 1/2/4/8/16/20/4800 bytes with lane checks; spare-capacity states of the root buffer; wrap-provoking indices ceil(2^64/stride)*j+d in every argument position; occasional dimensions up to 70001 with stretched coordinates."
     }
     fn bound(_t: Tier) -> String {
         "shapes (0..=5)^2, index values {0..dim+1, usize::MAX}, receivers: owned, 3 window embeddings (one nested), Thin over owned, Thin over window".into()
@@ -1369,7 +1369,7 @@ impl Prop for C14 {
     }
     const ID: &'static str = "C14";
     fn rule() -> &'static str {
-        "copy_from_slice / clone_from_slice / copy_from_toodee / clone_from_toodee with destinations {owned, strided / nested / empty window, third-party implementor} x sources {slice, owned, view, strided view, mutable view} of equal and unequal size (incl. same area, different shape), and copy_within exhaustively over shapes up to 4x4 (thorough 5x5) x all source rectangles {0..dim+1}^4 x all destination corners {0..dim+1}^2 x 3 implementors plus huge destination / rectangle components; oracle = row-major transfer / prior-contents rectangle copy with whole-parent comparison, panic required when sizes differ or a rectangle does not fit (contents after such a panic unconstrained). Non-trivial = overlapping source and destination of non-zero area, or a strided source/destination, or an empty destination, or a rejected call. Distinct = distinct case tuple."
+        "copy_from_slice / clone_from_slice / copy_from_toodee / clone_from_toodee with destinations {owned, strided / nested / empty window, third-party implementor} x sources {slice, owned, view, strided view, mutable view} of equal and unequal size (incl. same area, different shape), and copy_within exhaustively over shapes up to 4x4 (thorough 5x5) x all source rectangles {0..dim+1}^4 x all destination corners {0..dim+1}^2 x 3 implementors plus huge destination / rectangle components; oracle = row-major transfer / prior-contents rectangle copy with whole-parent comparison, panic required when sizes differ or a rectangle does not fit (contents after such a panic unconstrained). Non-trivial = overlapping source and destination of non-zero area, or a strided source/destination, or an empty destination, or a rejected call. Distinct = distinct case tuple. Cross-cutting families (DESIGN 4.0): operations are called through the concrete receiver types (inherent methods, `for v in &mut x`) and through the traits; cell types of 1/2/4/8/16/20/4800 bytes with lane checks; spare-capacity states of the root buffer; wrap-provoking indices ceil(2^64/stride)*j+d in every argument position; occasional dimensions up to 70001 with stretched coordinates. copy_within rectangles wider than 512 / 1024 columns in every direction."
     }
     fn bound(t: Tier) -> String {
         format!("copy_within: shapes (0..={n})^2, all (x0,y0,x1,y1) in {{0..dim+1}}^4, all dest in {{0..dim+1}}^2, receivers owned / interior window / Thin; copy_from_*: shapes (0..=4)^2 x 6 receivers x 5 source kinds x size deltas", n = if t == Tier::Quick { 4 } else { 5 })
@@ -1543,7 +1543,7 @@ impl Prop for C15 {
     }
     const ID: &'static str = "C15";
     fn rule() -> &'static str {
-        "translate_with_wrap / flip_rows / flip_cols: exhaustive over shapes (0..=8)^2 (thorough 12^2) x all mids 0..=dim+1 (+ usize::MAX) x {owned, interior window, nested window, Thin}; random shapes up to 48x48. Oracle = the stated index formula on distinct cells (so loss / duplication is impossible to miss) with whole-parent comparison; mid component > dim must panic. Non-trivial = row offset not in {0,R} with gcd(R, R-mr) > 1 (multi-cycle path), or a column offset not in {0,C}, or a rejected call. Distinct = distinct case tuple."
+        "translate_with_wrap / flip_rows / flip_cols: exhaustive over shapes (0..=8)^2 (thorough 12^2) x all mids 0..=dim+1 (+ usize::MAX) x {owned, interior window, nested window, Thin}; random shapes up to 48x48. Oracle = the stated index formula on distinct cells (so loss / duplication is impossible to miss) with whole-parent comparison; mid component > dim must panic. Non-trivial = row offset not in {0,R} with gcd(R, R-mr) > 1 (multi-cycle path), or a column offset not in {0,C}, or a rejected call. Distinct = distinct case tuple. Cross-cutting families (DESIGN 4.0): operations are called through the concrete receiver types (inherent methods, `for v in &mut x`) and through the traits; cell types of 1/2/4/8/16/20/4800 bytes with lane checks; spare-capacity states of the root buffer; wrap-provoking indices ceil(2^64/stride)*j+d in every argument position; occasional dimensions up to 70001 with stretched coordinates."
     }
     fn bound(t: Tier) -> String {
         format!("shapes (0..={n})^2, mids 0..=dim+1 and usize::MAX, 4 receivers", n = if t == Tier::Quick { 8 } else { 12 })
@@ -1815,7 +1815,7 @@ impl Prop for C16 {
     }
     const ID: &'static str = "C16";
     fn rule() -> &'static str {
-        "the six sort-by-row variants (closure incl. reversed comparator, key function incl. non-monotone keys, Ord; stable and unstable) on {owned, interior window, Thin, nested}: every key row of length 1..=5 (thorough 6) over a 3-letter alphabet (all tie patterns) x heights {1,3}, every out-of-range row index, plus random key rows of length 21..96 (std's unstable sort is an insertion sort, hence accidentally stable, for short inputs: up to 20 or 32 elements depending on the std version) and small shapes; cells are (key,id) with unique ids. Oracle (both directions): chosen row ordered, every result column is one original column intact and each original column appears exactly once; stable variants equal the model's stable sort (ties keep left-to-right order); out-of-range row panics; outside of a window unchanged. Non-trivial = >= 1 tie and >= 1 inversion in the key row of an array with >= 2 columns. Distinct = distinct case tuple."
+        "the six sort-by-row variants (closure incl. reversed comparator, key function incl. non-monotone keys, Ord; stable and unstable) on {owned, interior window, Thin, nested}: every key row of length 1..=5 (thorough 6) over a 3-letter alphabet (all tie patterns) x heights {1,3}, every out-of-range row index, plus random key rows of length 21..96 (std's unstable sort is an insertion sort, hence accidentally stable, for short inputs: up to 20 or 32 elements depending on the std version) and small shapes; cells are (key,id) with unique ids. Oracle (both directions): chosen row ordered, every result column is one original column intact and each original column appears exactly once; stable variants equal the model's stable sort (ties keep left-to-right order); out-of-range row panics; outside of a window unchanged. Non-trivial = >= 1 tie and >= 1 inversion in the key row of an array with >= 2 columns. Distinct = distinct case tuple. Cross-cutting families (DESIGN 4.0): operations are called through the concrete receiver types (inherent methods, `for v in &mut x`) and through the traits; cell types of 1/2/4/8/16/20/4800 bytes with lane checks; spare-capacity states of the root buffer; wrap-provoking indices ceil(2^64/stride)*j+d in every argument position; occasional dimensions up to 70001 with stretched coordinates. Key functions of other key types (negative i8, Reverse<u8>, Ordering, (bool,u8), i64 near MIN); key cardinalities 255/256/257/258/1000 on lines of 1030 and 2100; lines of 1025/32768/65538."
     }
     fn bound(t: Tier) -> String {
         format!("all key rows of length 1..={} over {{0,1,2}}, heights {{1,3}}, 6 variants x 3 key functions, receivers owned / window / Thin; all out-of-range rows for shapes (0..=3)^2", if t == Tier::Quick { 5 } else { 6 })
@@ -1856,7 +1856,7 @@ impl Prop for C17 {
     }
     const ID: &'static str = "C17";
     fn rule() -> &'static str {
-        "the five sort-by-column variants (closure incl. reversed comparator, key function incl. non-monotone keys, Ord; stable and unstable) on {owned, interior window, Thin, nested}: every key column of length 1..=5 (thorough 6) over a 3-letter alphabet x widths {1,3}, every out-of-range column index, plus random key columns of length 21..96 and small non-square shapes; cells are (key,id) with unique ids. Oracle (both directions): chosen column ordered (by the comparison or the key function), every result row is one original row intact and each appears exactly once; stable variants equal the model's stable sort (ties keep top-to-bottom order); out-of-range column panics; outside of a window unchanged. Non-trivial = >= 1 tie and >= 1 inversion in the key column of an array with >= 2 rows. Distinct = distinct case tuple."
+        "the five sort-by-column variants (closure incl. reversed comparator, key function incl. non-monotone keys, Ord; stable and unstable) on {owned, interior window, Thin, nested}: every key column of length 1..=5 (thorough 6) over a 3-letter alphabet x widths {1,3}, every out-of-range column index, plus random key columns of length 21..96 and small non-square shapes; cells are (key,id) with unique ids. Oracle (both directions): chosen column ordered (by the comparison or the key function), every result row is one original row intact and each appears exactly once; stable variants equal the model's stable sort (ties keep top-to-bottom order); out-of-range column panics; outside of a window unchanged. Non-trivial = >= 1 tie and >= 1 inversion in the key column of an array with >= 2 rows. Distinct = distinct case tuple. Cross-cutting families (DESIGN 4.0): operations are called through the concrete receiver types (inherent methods, `for v in &mut x`) and through the traits; cell types of 1/2/4/8/16/20/4800 bytes with lane checks; spare-capacity states of the root buffer; wrap-provoking indices ceil(2^64/stride)*j+d in every argument position; occasional dimensions up to 70001 with stretched coordinates. Key functions of other key types; key cardinalities 255/256/257/258/1000; lines of 1025/32768/65538."
     }
     fn bound(t: Tier) -> String {
         format!("all key columns of length 1..={} over {{0,1,2}}, widths {{1,3}}, 5 variants x 3 key functions, receivers owned / window / Thin; all out-of-range columns for shapes (0..=3)^2", if t == Tier::Quick { 5 } else { 6 })
@@ -1936,7 +1936,7 @@ impl Prop for C04 {
     }
     const ID: &'static str = "C04";
     fn rule() -> &'static str {
-        "one valid mutating operation (indexed writes, fill, swap family, row_pair_mut, writes through rows_mut / col_mut / cells_mut incl. rev / skip / step_by, copy_from_slice, clone_from_slice, copy/clone_from_toodee, copy_within, all eleven sort variants, translate_with_wrap, flips) on a TooDeeViewMut window of a parent with distinct cells: window classes interior, touching each edge, single row / column, full, empty, nested two levels (also a full-width inner window of a strided outer one), a view built directly over a longer slice, and through a third-party wrapper; shapes up to 10x10 with margins 0..3. Oracle: (a) every parent cell outside the rectangle is bit-for-bit unchanged; (b) differential: inside equals the result of the same operation on an owned copy (unstable sorts with tied keys: validity only), and both equal the rows-of-cells model. Non-trivial = the window is smaller than its parent in at least one dimension and the operation changed at least one inside cell. Distinct = distinct case tuple."
+        "one valid mutating operation (indexed writes, fill, swap family, row_pair_mut, writes through rows_mut / col_mut / cells_mut incl. rev / skip / step_by, copy_from_slice, clone_from_slice, copy/clone_from_toodee, copy_within, all eleven sort variants, translate_with_wrap, flips) on a TooDeeViewMut window of a parent with distinct cells: window classes interior, touching each edge, single row / column, full, empty, nested two levels (also a full-width inner window of a strided outer one), a view built directly over a longer slice, and through a third-party wrapper; shapes up to 10x10 with margins 0..3. Oracle: (a) every parent cell outside the rectangle is bit-for-bit unchanged; (b) differential: inside equals the result of the same operation on an owned copy (unstable sorts with tied keys: validity only), and both equal the rows-of-cells model. Non-trivial = the window is smaller than its parent in at least one dimension and the operation changed at least one inside cell. Distinct = distinct case tuple. Cross-cutting families (DESIGN 4.0): operations are called through the concrete receiver types (inherent methods, `for v in &mut x`) and through the traits; cell types of 1/2/4/8/16/20/4800 bytes with lane checks; spare-capacity states of the root buffer; wrap-provoking indices ceil(2^64/stride)*j+d in every argument position; occasional dimensions up to 70001 with stretched coordinates. 25 % of the random cases apply a sequence of up to four operations to the same window."
     }
     fn bound(_t: Tier) -> String {
         "exhaustive part: shapes (1..=4)^2 x 7 window embeddings x a fixed list of 40 operations".into()
